@@ -100,6 +100,10 @@ func execute(c Case, plan string) (*run, *pt.Failure) {
 			return count == k
 		}}
 		env.Srv.AddFault(f)
+	case plan == "flush-fail+report-down":
+		f = &memsql.Fault{Match: func(e *memsql.Entry) bool { return strings.HasPrefix(e.Upper(), "INSERT INTO UNDO_LOG") }}
+		env.Srv.AddFault(f)
+		env.TC.Sticky(message.MessageTypeBranchStatusReport, &faketc.Action{Kind: faketc.TransportError})
 	case plan == "register-fail":
 		env.TC.Script(message.MessageTypeBranchRegister, faketc.Action{Kind: faketc.Fail, Msg: "LockKeyConflict"})
 	case plan == "register-transport":
@@ -180,7 +184,8 @@ func judge(c Case, plan string, r *run, base *run) *pt.Failure {
 	var regReply, undoIns, commit, firstWrite int64 = -1, -1, -1, -1
 	var undoConn, undoTx, commitConn, commitTx, writeConn, writeTx int
 	for _, e := range r.tc {
-		if _, ok := e.Body.(message.BranchRegisterResponse); ok && e.Dir == "s2c" {
+		// only a granted registration counts: a refusal is not a licence to commit
+		if b, ok := e.Body.(message.BranchRegisterResponse); ok && e.Dir == "s2c" && b.ResultCode == message.ResultCodeSuccess {
 			regReply = e.Seq
 		}
 	}
@@ -222,7 +227,8 @@ func judge(c Case, plan string, r *run, base *run) *pt.Failure {
 				registered = b.BranchId
 			}
 		case message.BranchReportRequest:
-			if e.Dir == "c2s" && b.Status == branch.BranchStatusPhaseoneFailed {
+			// (an attempt the transport refused counts: the client tried, the coordinator was unreachable)
+			if (e.Dir == "c2s" || e.Dir == "err") && b.Status == branch.BranchStatusPhaseoneFailed {
 				reportedFailed = true
 			}
 			if e.Dir == "c2s" && b.Status == branch.BranchStatusPhaseoneDone {
@@ -258,6 +264,11 @@ func plansFor(base *run, thorough bool) []string {
 		plans = append(plans, fmt.Sprintf("db:%d", k), fmt.Sprintf("drop:%d", k))
 	}
 	plans = append(plans, "register-fail", "register-transport", "report-fail:1")
+	// one double fault that a single outage produces: the undo_log insert fails and the coordinator
+	// cannot be reached for the failure report either (every 4th scenario: the report retries take ~1 s)
+	if base.xid != "" && base.xid[len(base.xid)-1]%4 == 0 || thorough {
+		plans = append(plans, "flush-fail+report-down")
+	}
 	if thorough {
 		plans = append(plans, "report-fail:2", "report-fail:5")
 	}
